@@ -931,7 +931,9 @@ class TestClientRecorder(BaseOperationRecorder):
                             http_response.headers[hdr_name]
             tc_http_response['headers'] = tc_response_headers
             if http_response.payload is not None:
-                data = http_response.payload.decode('utf-8')
+                # The response may not be valid UTF-8
+                data = http_response.payload.decode('utf-8',
+                                                    errors='replace')
                 data = data.replace('><', '>\n<').strip()
             else:
                 data = None
